@@ -66,14 +66,13 @@ impl SLIT {
     /// Set the relative locality distance between two domains
     /// (10-254, 10 is the value from one node to itself).
     pub fn set_distance(&mut self, domain_a: usize, domain_b: usize, locality_value: u8) {
-        let old_values = [
-            self.entries[domain_a + self.localities as usize * domain_b],
-            self.entries[domain_b + self.localities as usize * domain_a],
-        ];
-
+        // The second cell is read after the first one is written, so that a
+        // diagonal cell (domain_a == domain_b) is only accounted for once.
+        let old_a = self.entries[domain_a + self.localities as usize * domain_b];
         self.entries[domain_a + self.localities as usize * domain_b] = locality_value;
+        let old_b = self.entries[domain_b + self.localities as usize * domain_a];
         self.entries[domain_b + self.localities as usize * domain_a] = locality_value;
-        self.update_header(&old_values, locality_value);
+        self.update_header(&[old_a, old_b], locality_value);
     }
 }
 
